@@ -1,4 +1,5 @@
 import TxVerif.Props.C10
+import TxVerif.Props.C10C02Engine
 open TxVerif
 #print axioms region_roundtrip
 #print axioms region_enc_size
@@ -12,3 +13,22 @@ open TxVerif
 #print axioms absorb_keeps
 #print axioms absorb_id
 #print axioms absorb_no_collision
+#print axioms c10_reopen_keeps_invariant
+#print axioms c10_reopen_logical
+#print axioms c10_reopen_state
+#print axioms c10_reopen_alloc_iff
+#print axioms c10_reopen_exact
+#print axioms c10_reopen_run
+#print axioms c10_reopen_observational
+#print axioms c10_reopen_observational_truthful
+#print axioms c10_reopen_reads
+#print axioms c10_reopen_allocs
+#print axioms c10_reopen_commit
+#print axioms c10_allocatable_same
+#print axioms c10_history_reopen
+#print axioms c10_history_insert_reopen
+#print axioms c10_history_nogap_partial
+#print axioms c10_history_reopen_anywhere_partial
+#print axioms c10_history_reopen_created_partial
+#print axioms noGap_create
+#print axioms c10_gap_example
